@@ -110,6 +110,24 @@ theorem history_strictly_increasing (C : Ops) (s : Sess) (hr : s.remoteID < 4294
   rw [hget i (by omega), hget j hj]
   omega
 
+/-- ACROSS THE 32-BIT WRAP "strictly increasing" cannot hold for any implementation; what does hold, for every starting
+    value of the counter (also 0xFFFFFFFF) and every history of fewer than 2^32 transmissions, is that NO NUMBER IS USED
+    FOR TWO DATAGRAMS: the counter simply continues modulo 2^32 (… 0xFFFFFFFF, 0, 1, …). -/
+theorem history_no_reuse (C : Ops) (s : Sess) (hs : s.inbound < 4294967296) (hr : s.remoteID < 4294967296)
+    (h : List (Cmd × List Bytes × List Outcome)) (hl : ∀ e ∈ h, e.2.2.length ≤ e.2.1.length)
+    (hn : (runHistory C s h).2.length ≤ 4294967296) (i j : Nat) (hij : i < j)
+    (hj : j < (runHistory C s h).2.length) :
+    ((runHistory C s h).2.map seqOf).getD i 0 ≠ ((runHistory C s h).2.map seqOf).getD j 0 := by
+  have := (history_seqs C s hs hr h hl).1
+  rw [this]
+  have hget : ∀ k, k < (runHistory C s h).2.length →
+      ((List.range (runHistory C s h).2.length).map (fun i => (s.inbound + i + 1) % 4294967296)).getD k 0
+        = (s.inbound + k + 1) % 4294967296 := by
+    intro k hk
+    simp [List.getD_eq_getElem?_getD, hk]
+  rw [hget i (by omega), hget j hj]
+  omega
+
 end Bmc.Proofs.C09
 
 namespace Bmc.Proofs.C09
